@@ -164,8 +164,16 @@ def decrypt_members(sb, blob, passphrase=None):
     gh = sb.path("gnupg-check")
     os.makedirs(gh, exist_ok=True)
     os.chmod(gh, 0o700)
-    p = subprocess.run([REAL_GPG, "--homedir", gh, "--batch", "--quiet", "--pinentry-mode", "loopback", "--passphrase", passphrase if passphrase is not None else PASS, "--decrypt"],
-                       input=blob, stdout=subprocess.PIPE, stderr=subprocess.PIPE)
+    # the passphrase goes through a file (it may start with a dash or hold anything else a command line would misread); gpg takes its
+    # first line, as it does with vsb's pipe
+    pf = sb.path("gnupg-check", "pass.%d" % os.getpid())
+    with open(pf, "wb") as f:
+        f.write((passphrase if passphrase is not None else PASS).encode("utf-8"))
+    try:
+        p = subprocess.run([REAL_GPG, "--homedir", gh, "--batch", "--quiet", "--pinentry-mode", "loopback", "--passphrase-file", pf, "--decrypt"],
+                           input=blob, stdout=subprocess.PIPE, stderr=subprocess.PIPE)
+    finally:
+        os.remove(pf)
     if p.returncode != 0:
         raise ValueError("gpg: %s" % p.stderr.decode("utf-8", "replace")[-200:])
     members = {}
